@@ -1,6 +1,7 @@
 import UpfVerif.Model.Buf
 import UpfVerif.Props.C14
 import UpfVerif.Props.C10
+import UpfVerif.Props.C04
 /-
 C13 — buffered downlink packets are released in order, once, to the right tunnel.
 
@@ -497,6 +498,48 @@ theorem notification_goes_to_owner (st : Core.State) (x : Core.Seid) (pdr : Nat)
     (hd : Core.reportDest (st.nodes.getD s.rnode default) = some dest) :
     C10.OnlyTo dest c (Core.serveReport st x [.dldr pdr act pkt] c).2 :=
   C10.report_goes_to_owner st x _ c s dest h hd
+
+theorem lookup_setSess_self (n : Core.LNode) (x : Core.Seid) (s0 s' : Core.Sess) (hl : n.lookup x = some s0)
+    (hid : s'.localID = x) : (n.setSess s').lookup x = some s' := by
+  unfold Core.LNode.lookup at hl ⊢
+  by_cases h0 : (x == 0) = true
+  · simp only [h0, if_true] at hl; cases hl
+  · have h0' : (x == 0) = false := by simpa using h0
+    simp only [h0', Bool.false_eq_true, if_false] at hl ⊢
+    by_cases hb : x.toNat > n.sess.length
+    · simp [hb] at hl
+    · have hx : x.toNat ≠ 0 := by
+        intro hz
+        apply h0
+        have : x = 0 := by apply BitVec.eq_of_toNat_eq; simpa using hz
+        simp [this]
+      simp only [Core.LNode.setSess, hid, List.length_set, hb, if_false]
+      have hlt : x.toNat - 1 < n.sess.length := by omega
+      simp [List.getD, List.getElem?_set, hlt]
+
+/-- **held whatever happens to the notification**: a packet handed up with BUFF set and a payload is appended to its PDR's
+    queue (or dropped when the queue is full — `Sess.push`) BEFORE and INDEPENDENTLY of the Session Report Request: the
+    session's queues after the report are those of `push`, whether NOCP is set or not and wherever the notification goes -/
+theorem held_whatever_the_notification (st : Core.State) (wf : C04.TableWF st.lnode) (x : Core.Seid) (pdr : Nat)
+    (act : BitVec 16) (pkt : Bytes) (c : Core.Ctx) (s : Core.Sess) (dest : String)
+    (h : st.lnode.lookup x = some s) (hd : Core.reportDest (st.nodes.getD s.rnode default) = some dest)
+    (hb : (act &&& Core.buffF != 0) = true) (hp : pkt.length > 0) :
+    ((Core.serveReport st x [.dldr pdr act pkt] c).1.lnode.lookup x).map (·.q) = some (s.push st.cfg.qlen pdr pkt).q := by
+  have hid : s.localID = x := C04.lookup_some_id st.lnode wf x s h
+  have hpid : (s.push st.cfg.qlen pdr pkt).localID = x := by
+    unfold Core.Sess.push; simp only []; split <;> exact hid
+  have hpush : (st.pushPkt x pdr act pkt).lnode.lookup x = some (s.push st.cfg.qlen pdr pkt) := by
+    unfold Core.State.pushPkt
+    simp only [h, hb, hp, decide_true, Bool.and_self, if_true]
+    exact lookup_setSess_self st.lnode x s _ h hpid
+  unfold Core.serveReport
+  simp only [h, hd, Core.serveLoop]
+  by_cases hn : (act &&& Core.nocpF == 0) = true
+  · simp only [hn, if_true]
+    rw [hpush]; rfl
+  · simp only [hn, Bool.false_eq_true, if_false, hpush]
+    simp only [Core.State.sendReq, Core.serveLoop, List.isEmpty_nil, if_true]
+    rw [hpush]; rfl
 
 /-! ### non-vacuity: two packets buffered for PDR 1, one for PDR 2 (FAR 1 buffering, both PDRs related), then FORW -/
 def exSt : St :=
